@@ -92,3 +92,106 @@ fn c08_variant_decode_binary_total() {
     kani::cover!(r.is_err() && n >= 4, "inflated length prefix");
     std::mem::forget(r);
 }
+
+//@ tier: quick
+//@ functions: parquet_variant::decoder::OffsetSizeBytes::{try_new, unpack_u32_at_offset, unpack_u32}
+//@ bound: every width code 0..=255, buffer of every length 0..=12 with arbitrary bytes, ARBITRARY usize byte offset and index (overflow included): Err for width codes above 3, for arithmetic overflow and when the value does not lie inside the buffer; otherwise exactly the little-endian value of `width` bytes at byte_offset + width * index, zero-extended; no panic
+//@ stub: alloc::fmt::format -> empty String
+#[kani::proof]
+#[kani::unwind(6)]
+#[kani::stub(alloc::fmt::format, stub_format)]
+fn c08_variant_unpack_u32_total() {
+    let code: u8 = kani::any();
+    let w = OffsetSizeBytes::try_new(code);
+    match &w {
+        Err(_) => assert!(code > 3),
+        Ok(sz) => {
+            assert!(code <= 3 && *sz as u8 == code + 1);
+            let data: [u8; 12] = kani::any();
+            let n: usize = kani::any();
+            kani::assume(n <= 12);
+            let off: usize = kani::any();
+            let idx: usize = kani::any();
+            let width = code as usize + 1;
+            let r = sz.unpack_u32_at_offset(&data[..n], off, idx);
+            let pos = idx.checked_mul(width).and_then(|x| x.checked_add(off));
+            let inside = match pos {
+                Some(p) => p <= n && width <= n - p,
+                None => false,
+            };
+            match &r {
+                Ok(v) => {
+                    assert!(inside, "a value is returned only from inside the buffer");
+                    let p = pos.unwrap();
+                    let mut want = 0u32;
+                    let mut k = 0;
+                    while k < 4 {
+                        if k < width {
+                            want |= (data[p + k] as u32) << (8 * k);
+                        }
+                        k += 1;
+                    }
+                    assert!(*v == want, "little-endian value of `width` bytes, zero-extended");
+                }
+                Err(_) => assert!(!inside, "rejected only when the value is not inside the buffer"),
+            }
+            kani::cover!(r.is_ok() && width == 3 && idx == 2);
+            kani::cover!(r.is_err() && pos.is_none(), "index arithmetic overflows");
+            std::mem::forget(r);
+        }
+    }
+    std::mem::forget(w);
+}
+
+//@ tier: quick
+//@ timeout: 900
+//@ functions: parquet_variant::decoder::decode_date, chrono::{DateTime + TimeDelta, TimeDelta::days, DateTime::date_naive}
+//@ bound: value section of every length 0..=6 with arbitrary bytes, i.e. EVERY 32-bit day count: an error or a date, never a panic (chrono's `+` panics when the sum leaves its representable range); a result is returned only when the 4 bytes are present
+//@ stub: alloc::fmt::format -> empty String
+#[kani::proof]
+#[kani::unwind(4)]
+#[kani::stub(alloc::fmt::format, stub_format)]
+fn c08_variant_decode_date_total() {
+    let data: [u8; 6] = kani::any();
+    let n: usize = kani::any();
+    kani::assume(n <= 6);
+    let r = decode_date(&data[..n]);
+    let ok = r.is_ok();
+    std::mem::forget(r);
+    assert!(!ok || n >= 4, "a date is decoded only from 4 present bytes");
+    let days = i32::from_le_bytes([data[0], data[1], data[2], data[3]]);
+    kani::cover!(ok && days == 19_000, "an ordinary date decodes");
+    kani::cover!(ok && days < -700_000, "a date before year 1 decodes");
+}
+
+macro_rules! decoder_never_panics {
+    ($name:ident, $f:ident, $need:expr) => {
+        #[kani::proof]
+        #[kani::unwind(4)]
+        #[kani::stub(alloc::fmt::format, stub_format)]
+        fn $name() {
+            let data: [u8; 10] = kani::any();
+            let n: usize = kani::any();
+            kani::assume(n <= 10);
+            let r = $f(&data[..n]);
+            let ok = r.is_ok();
+            std::mem::forget(r);
+            assert!(!ok || n >= $need, "a value is decoded only from its full width");
+            kani::cover!(ok);
+            kani::cover!(!ok && n >= $need, "all bytes present but the value is out of range");
+        }
+    };
+}
+
+//@ tier: quick
+//@ timeout: 900
+//@ functions: parquet_variant::decoder::decode_timestamp_micros, chrono::DateTime::from_timestamp_micros
+//@ bound: value section of every length 0..=10, i.e. every 64-bit microsecond count: an error or a timestamp, never a panic
+//@ stub: alloc::fmt::format -> empty String
+decoder_never_panics!(c08_variant_decode_timestamp_micros_total, decode_timestamp_micros, 8);
+//@ tier: quick
+//@ timeout: 900
+//@ functions: parquet_variant::decoder::decode_time_ntz, chrono::NaiveTime::from_num_seconds_from_midnight_opt
+//@ bound: value section of every length 0..=10, i.e. every 64-bit microsecond-of-day count: an error or a time of day, never a panic or an arithmetic overflow
+//@ stub: alloc::fmt::format -> empty String
+decoder_never_panics!(c08_variant_decode_time_ntz_total, decode_time_ntz, 8);
